@@ -1,6 +1,7 @@
 package main
 
 import (
+	"runtime"
 	"encoding/json"
 	"go/types"
 	"flag"
@@ -269,6 +270,20 @@ func runCheck(prop, tier, repo, evdir string, verbose bool) int {
 	}
 	work, _ := os.MkdirTemp("/var/tmp", "gcv-work-")
 	defer os.RemoveAll(work)
+	busyAtStart := machineBusy()
+	// bounded stand-ins run beside the solving (they are go test processes); their replay files are written into a directory
+	// of their own first, because the replay directory of the property is recreated after the solving
+	boundedReplay, _ := os.MkdirTemp("/var/tmp", "gcv-bounded-")
+	defer os.RemoveAll(boundedReplay)
+	var boundedRuns []chan boundedResult
+	for _, b := range cfg.Bounded {
+		if b.Tier == "thorough" && tier != "thorough" {
+			continue
+		}
+		ch := make(chan boundedResult, 1)
+		boundedRuns = append(boundedRuns, ch)
+		go func(b BoundedSpec) { ch <- runBounded(b, repo, boundedReplay) }(b)
+	}
 	timeout := 5000
 	if cfg.TimeoutMs > 0 {
 		timeout = cfg.TimeoutMs
@@ -384,6 +399,43 @@ func runCheck(prop, tier, repo, evdir string, verbose bool) int {
 			}
 		}
 		wg2.Wait()
+	}
+	// Last pass, only when the machine is busy with other work (1-minute load above 3/4 of the processors now or at the
+	// start of the run): an obligation that is still undecided (never one with a counterexample) is tried once more under
+	// a limit on the PROCESSOR time the solver receives (RLIMIT_CPU = four quick timeouts, at least 30 s) with a wall-clock backstop
+	// six times as long. Wall-clock timeouts measure the machine, not the obligation; a timeout must not become an alarm.
+	if busyAtStart || machineBusy() {
+		var wg3 sync.WaitGroup
+		sem3 := make(chan struct{}, 3)
+		cpu := timeout * 4 / 1000
+		if cpu < 30 {
+			cpu = 30
+		}
+		for i := range results {
+			f := results[i].f
+			if f == nil || results[i].vs == nil {
+				continue
+			}
+			for k, v := range results[i].vs {
+				if v == nil || v.Oblig.IsCover || v.Status == "unsat" || v.Status == "trivial" || v.Status == "sat" || v.Status == "error" {
+					continue
+				}
+				if matchKnown(known, prop, v.Oblig.Name) != nil || mnc(v.Oblig.Name) != nil {
+					continue
+				}
+				wg3.Add(1)
+				go func(i, k int, f *FuncVC, v *Verdict) {
+					defer wg3.Done()
+					sem3 <- struct{}{}
+					defer func() { <-sem3 }()
+					nv := raceOne(f, v.Oblig, v, SolveOpts{TimeoutMs: cpu * 1000 * 6, CPUSecs: cpu, WorkDir: work})
+					if nv.Status == "unsat" || nv.Status == "sat" {
+						results[i].vs[k] = nv
+					}
+				}(i, k, f, v)
+			}
+		}
+		wg3.Wait()
 	}
 
 	// verdicts
@@ -504,15 +556,23 @@ func runCheck(prop, tier, repo, evdir string, verbose bool) int {
 		}
 		return 2
 	}
-	// bounded stand-ins
+	// bounded stand-ins (started before the solving, collected here)
 	var boundedOut []map[string]interface{}
-	for _, b := range cfg.Bounded {
-		if b.Tier == "thorough" && tier != "thorough" {
+	boundedToolError := false
+	for _, bch := range boundedRuns {
+		res := <-bch
+		boundedOut = append(boundedOut, res.Summary)
+		if te, ok := res.Summary["tool_error"].(string); ok && te != "" {
+			fmt.Println("TOOL-ERROR bounded harness", res.Summary["name"], "did not build or run:", te)
+			boundedToolError = true
 			continue
 		}
-		res := runBounded(b, repo, replayDir)
-		boundedOut = append(boundedOut, res.Summary)
 		for _, fl := range res.Failures {
+			if data, err := os.ReadFile(fl.Path); err == nil {
+				np := filepath.Join(replayDir, filepath.Base(fl.Path))
+				os.WriteFile(np, data, 0o644)
+				fl.Path = np
+			}
 			if kf := matchKnown(known, prop, fl.Name); kf != nil {
 				knownHit = append(knownHit, fmt.Sprintf("KNOWN-FINDING: property=%s %s [%s]", prop, kf.What, fl.Name))
 				continue
@@ -605,6 +665,9 @@ func runCheck(prop, tier, repo, evdir string, verbose bool) int {
 	fmt.Printf("%s %s: %d/%d obligations discharged over %d functions, %d violations, %d known findings, %.1fs\n", prop, tier, nDis, nOb, len(funcs), violations, len(knownHit), time.Since(t0).Seconds())
 	if violations > 0 {
 		return 1
+	}
+	if boundedToolError {
+		return 2
 	}
 	return 0
 }
@@ -755,4 +818,15 @@ func splitTopAlt(re string) []string {
 		}
 	}
 	return append(out, re[start:])
+}
+
+// machineBusy: the 1-minute load average exceeds three quarters of the processors.
+func machineBusy() bool {
+	b, err := os.ReadFile("/proc/loadavg")
+	if err != nil {
+		return false
+	}
+	var l1 float64
+	fmt.Sscanf(string(b), "%f", &l1)
+	return l1 > 0.75*float64(runtime.NumCPU())
 }
